@@ -189,8 +189,12 @@ func (g *PG) Expr(t Ty, d int) *canon.Node {
 			g.stat("raw-builtin-failure-in-try")
 			f := Pick(r, []string{"raw-panic-runtime!", "raw-panic-runtime!", "raw-panic-err!", "raw-fail!"})
 			tryF := li(sy("try"), li(sy("do"), g.mark(), li(sy(f)), g.mark()), li(sy("catch"), sy("ez"), li(sy("do"), g.mark(), canon.Ke("raw-caught"))))
-			if r.Intn(2) == 0 {
+			switch r.Intn(3) {
+			case 0:
 				tryF = li(sy("try"), li(sy("do"), g.mark(), li(sy("try"), li(sy(f)), li(sy("finally"), g.mark())), g.mark()), li(sy("catch"), sy("ez"), li(sy("do"), g.mark(), canon.Ke("raw-caught"))))
+			case 1:
+				// the failure happens in a handler of a try that also has a finally: that finally still runs once
+				tryF = li(sy("try"), li(sy("try"), li(sy("throw"), canon.In(1)), li(sy("catch"), sy("e1"), li(sy("do"), g.mark(), li(sy(f)), g.mark())), li(sy("finally"), g.mark())), li(sy("catch"), sy("ez"), li(sy("do"), g.mark(), canon.Ke("raw-caught-from-handler"))))
 			}
 			return li(sy("do"), g.tr(tryF), g.Expr(t, d+1))
 		}
@@ -918,6 +922,19 @@ func (g *PG) genMacroDef() []*canon.Node {
 	g.macros = append(g.macros, name)
 	g.marity[name] = arity
 	forms := append(pre, li(sy("defmacro"), sy(name), def))
+	if r.Intn(5) == 0 {
+		// a macro bound, in an inner scope, to a name that is also the name of a special form: the binding wins, the call is
+		// a macro call like any other (and equals the evaluation of its expansion)
+		g.stat("macro-named-like-special-form")
+		sf := Pick(r, []string{"if", "try", "let", "def", "fn"}) // not do: function bodies are evaluated as a synthetic (do …) form, so a macro named do in scope captures them (hygiene, outside the statement)
+		swap := li(sy("fn"), li(sy("a"), sy("b")), li(sy("list"), li(sy("quote"), sy("list")), sy("b"), sy("a")))
+		callSF := li(sy(sf), g.tr(canon.In(1)), g.tr(canon.In(2)))
+		if r.Intn(2) == 0 {
+			forms = append(forms, g.tr(li(li(sy("fn"), li(), li(sy("defmacro"), sy(sf), swap), callSF))))
+		} else {
+			forms = append(forms, g.tr(li(li(sy("fn"), li(), li(sy("defmacro"), sy(sf), swap), li(sy("list"), callSF, li(sy("macroexpand"), li(sy(sf), canon.Ke("x"), canon.Ke("y"))))))))
+		}
+	}
 	if arity == 2 && r.Intn(4) == 0 {
 		// macroexpand returns the expansion as data: the operand forms (and the expansion) are not evaluated
 		g.stat("macroexpand-as-data")
